@@ -20,6 +20,14 @@ type ExploreOpts struct {
 	NShards   int           // 0/1 = no sharding
 	Exec      Options
 	KeepFirst int // violations kept per fingerprint (default 1)
+	// MaxDev bounds the number of non-default scheduling decisions (context
+	// switches away from the default schedule, preemptive or not) per execution;
+	// 0 = unbounded. Non-preemptive switches are free under Bound alone and their
+	// combinations grow exponentially with the length of a scenario.
+	MaxDev int
+	// NoReduction disables the independence reduction (alternatives are then
+	// explored at every choice point, including thread-local operations).
+	NoReduction bool
 	// Fingerprint maps a failure message to the class it is reported under.
 	Fingerprint func(msg string) string
 }
@@ -49,6 +57,8 @@ type ExploreResult struct {
 	Violations     []*Violation     `json:"violations,omitempty"`
 	Diverged       string           `json:"diverged,omitempty"`
 	Leftover       int64            `json:"leftover_goroutines"`
+	Pruned         int64            `json:"pruned_local_alternatives"`
+	DevCapped      int64            `json:"alternatives_beyond_deviation_bound"`
 	WallS          float64          `json:"wall_s"`
 }
 
@@ -75,7 +85,98 @@ func (e *explorer) runOnce(prefix []int, fps []uint64, tracing bool) (Result, st
 	return r, outcome
 }
 
-func (e *explorer) explore(prefix []int, fps []uint64, cost, depth int) {
+// frame is one node of the depth-first search: an executed run whose choice
+// points in [lo, len(trace)) are this frame's to branch on.
+type frame struct {
+	parent *frame
+	lo, hi int // hi: cps below it are shared with the child currently running
+	trace  []ChoicePoint
+	want   map[int]map[int32]bool // cp -> threads to branch to (race partners found so far), nil key set = all
+	all    map[int]bool
+	done   map[int]map[int]bool // cp -> alternatives already explored
+}
+
+// wanted reports whether alternative alt at cp i has to be explored.
+func (f *frame) wanted(i, alt int) bool {
+	cp := &f.trace[i]
+	if !cp.Sched || f.all[i] {
+		return true
+	}
+	w := f.want[i]
+	if len(w) == 0 {
+		return false
+	}
+	if w[cp.menu[alt]] {
+		return true
+	}
+	// a race partner that is not among the options cannot be scheduled directly:
+	// fall back to every option (one of them may enable it)
+	for th := range w {
+		found := false
+		for _, m := range cp.menu {
+			if m == th {
+				found = true
+				break
+			}
+		}
+		if !found {
+			return true
+		}
+	}
+	return false
+}
+
+// route delivers, to the frame that owns choice point k, what an execution
+// (this frame's own, or a descendant's that shares k) found out about option
+// 0's operation there: the threads racing with it. Following bounded
+// partial-order reduction, the same threads are also wanted at the choice point
+// where option 0's thread began its current uninterrupted run (a context switch
+// that costs no preemption), so that reorderings stay reachable within the bound.
+func (f *frame) route(tr []ChoicePoint, k int) {
+	cp := &tr[k]
+	if len(cp.Racers) == 0 && !cp.All {
+		return
+	}
+	f.deliver(k, cp.Racers, cp.All)
+	if len(cp.menu) == 0 {
+		return
+	}
+	th := cp.menu[0]
+	for j := k; j >= 0; j-- {
+		c := &tr[j]
+		if !c.Sched || c.Chosen != 0 || len(c.menu) == 0 || c.menu[0] != th {
+			break
+		}
+		if !c.Preempt {
+			if j != k {
+				f.deliver(j, cp.Racers, cp.All)
+			}
+			break
+		}
+	}
+}
+
+func (f *frame) deliver(k int, racers []int32, all bool) {
+	for f != nil {
+		if k >= f.lo {
+			if k < f.hi {
+				if all {
+					f.all[k] = true
+				}
+				for _, th := range racers {
+					if f.want[k] == nil {
+						f.want[k] = map[int32]bool{}
+					}
+					f.want[k][th] = true
+				}
+			}
+			return
+		}
+		f = f.parent
+	}
+}
+
+func (e *explorer) explore(parent *frame, prefix []int, fps []uint64, cost, depth, devs int) {
 	if e.stop {
 		return
 	}
@@ -94,10 +195,8 @@ func (e *explorer) explore(prefix []int, fps []uint64, cost, depth int) {
 		return
 	}
 	// An execution is counted and checked at the level equal to its cost (lower
-	// levels were handled by earlier iterations); with sharding, shared prefixes
-	// (depth 0) are counted by shard 0 only.
-	counted := cost == e.level && (depth > 0 || e.opt.NShards <= 1 || e.opt.Shard == 0)
-	if counted {
+	// levels were handled by earlier iterations).
+	if cost == e.level {
 		e.res.Execs++
 		e.res.Steps += int64(r.Steps)
 		e.res.ChoicePoints += int64(len(r.Trace))
@@ -113,29 +212,71 @@ func (e *explorer) explore(prefix []int, fps []uint64, cost, depth int) {
 			e.violation(prefixOf(r.Trace, len(r.Trace)), r, cost)
 		}
 	}
-	for i := len(prefix); i < len(r.Trace); i++ {
+	// races this execution reveals at choice points it shares with its ancestors
+	f := &frame{parent: parent, lo: len(prefix), hi: len(r.Trace), trace: r.Trace, want: map[int]map[int32]bool{}, all: map[int]bool{}, done: map[int]map[int]bool{}}
+	if !e.opt.NoReduction {
+		for k := 0; k < len(r.Trace); k++ {
+			if cp := &r.Trace[k]; cp.Sched && cp.Chosen == 0 {
+				f.route(r.Trace, k)
+			}
+		}
+	}
+	// branch explores the alternatives at cp i that are wanted and not yet done;
+	// reports whether it ran any.
+	branch := func(i int) bool {
 		cp := &r.Trace[i]
+		ran := false
 		for alt := 1; alt < cp.N; alt++ {
+			if f.done[i][alt] {
+				continue
+			}
+			if !e.opt.NoReduction && !f.wanted(i, alt) {
+				continue
+			}
 			c := cost + cp.AltCost(alt)
 			if c > e.level {
 				continue
 			}
-			if depth == 0 && e.opt.NShards > 1 {
-				e.ord++
-				if int(e.ord%int64(e.opt.NShards)) != e.opt.Shard {
-					continue
-				}
+			if e.opt.MaxDev > 0 && cp.Sched && devs+1 > e.opt.MaxDev {
+				e.res.DevCapped++
+				continue
 			}
+			if f.done[i] == nil {
+				f.done[i] = map[int]bool{}
+			}
+			f.done[i][alt] = true
+			f.hi = i // the child shares this frame's choice points below i
 			np := make([]int, i+1)
 			nf := make([]uint64, i+1)
 			for k := 0; k < i; k++ {
 				np[k], nf[k] = r.Trace[k].Chosen, r.Trace[k].FP
 			}
 			np[i], nf[i] = alt, cp.FP
-			e.explore(np, nf, c, depth+1)
-			if e.stop {
-				return
+			ran = true
+			nd := devs
+			if cp.Sched {
+				nd++
 			}
+			e.explore(f, np, nf, c, depth+1, nd)
+			if e.stop {
+				return ran
+			}
+		}
+		return ran
+	}
+	// work list: repeat until no choice point of this frame has a wanted,
+	// unexplored alternative (descendants keep adding to want while we go)
+	for again := true; again && !e.stop; {
+		again = false
+		for i := len(prefix); i < len(r.Trace) && !e.stop; i++ {
+			if branch(i) {
+				again = true
+			}
+		}
+	}
+	if !e.opt.NoReduction {
+		for i := len(prefix); i < len(r.Trace); i++ {
+			e.res.Pruned += int64(r.Trace[i].N - 1 - len(f.done[i]))
 		}
 	}
 }
@@ -168,6 +309,7 @@ func (e *explorer) violation(choices []int, r Result, cost int) {
 		rr, _ := e.runOnce(choices, nil, true)
 		if fmt.Sprint(rr.Failures) != fmt.Sprint(r.Failures) {
 			v.Stable = false
+			v.Failures = append(v.Failures, fmt.Sprintf("REPLAY DIFFERS: %v (diverged=%q)", rr.Failures, rr.Diverged))
 		}
 		v.Steps = rr.StepTrace
 	}
@@ -183,7 +325,7 @@ func Explore(t *testing.T, body Body, opt ExploreOpts) *ExploreResult {
 	for lvl := 0; lvl <= opt.Bound && !e.stop; lvl++ {
 		e.level = lvl
 		e.ord = 0
-		e.explore(nil, nil, 0, 0)
+		e.explore(nil, nil, nil, 0, 0, 0)
 		if !e.stop {
 			res.BoundCompleted = lvl
 		}
